@@ -62,16 +62,43 @@ func setOps(method, key string, full int, vals ...any) []sop {
 	var out []sop
 	for i, v := range vals {
 		v := v
+		// the expected rendering is fixed now: the library must not be able
+		// to influence it by writing through the argument
+		want := render(reflect.ValueOf(&v).Elem().Elem())
 		out = append(out, sop{
-			Name: fmt.Sprintf("%s(%s)", method, clip(render(reflect.ValueOf(&v).Elem().Elem()), 24)),
+			Name: fmt.Sprintf("%s(%s)", method, clip(want, 24)),
 			Call: func(q any) {
-				reflect.ValueOf(q).MethodByName(method).Call([]reflect.Value{reflect.ValueOf(v)})
+				arg := reflect.ValueOf(v)
+				if bs, ok := v.([]byte); ok && bs != nil {
+					// a fresh slice per call: the caller's memory of one
+					// execution is never reused in another
+					arg = reflect.ValueOf(append([]byte{}, bs...))
+				}
+				reflect.ValueOf(q).MethodByName(method).Call([]reflect.Value{arg})
 			},
-			Model: func(m KV) { m[key] = render(reflect.ValueOf(&v).Elem().Elem()) },
+			Model: func(m KV) { m[key] = want },
 			Full:  i == full,
 		})
 	}
 	return out
+}
+
+// reuseOps: the caller hands the SAME byte slice to two calls. Setters
+// store the slice they are given (documented behaviour of this API), but a
+// later call must never write through a slice it was given earlier.
+func reuseOps(m1, k1, m2, k2 string) []sop {
+	call := func(q any, method string, arg []byte) {
+		reflect.ValueOf(q).MethodByName(method).Call([]reflect.Value{reflect.ValueOf(arg)})
+	}
+	return []sop{{
+		Name: fmt.Sprintf("%s(x);%s(x) same slice", m1, m2),
+		Call: func(q any) {
+			x := []byte{7, 8, 9}
+			call(q, m1, x)
+			call(q, m2, x)
+		},
+		Model: func(m KV) { m[k1] = "bytes:070809"; m[k2] = "bytes:070809" },
+	}}
 }
 
 func withModel(ops []sop, extra func(i int, m KV)) []sop {
@@ -136,6 +163,8 @@ func alphabet(name string) []sop {
 		add(withModel(setOps("SetUsername", "Username", 1, "", "u", "uu"), func(i int, m KV) { m["HasFlag(7)"] = fl(i != 0) })...)
 		add(withModel(setOps("SetPassword", "Password", 1, bins...), func(i int, m KV) { m["HasFlag(6)"] = fl(i != 0) })...)
 		add(setOps("SetWillDelayInterval", "WillDelayInterval", 1, uint32(0), uint32(5))...)
+		add(withModel(reuseOps("SetPassword", "Password", "SetPassword", "Password"), func(i int, m KV) { m["HasFlag(6)"] = "true" })...)
+		add(withModel(reuseOps("SetAuthData", "AuthData", "SetPassword", "Password"), func(i int, m KV) { m["HasFlag(6)"] = "true" })...)
 		add(userPropOps()...)
 		for i, w := range wills() {
 			w := w
@@ -182,6 +211,7 @@ func alphabet(name string) []sop {
 		add(setOps("SetCorrelationData", "CorrelationData", 1, bins...)...)
 		add(setOps("SetContentType", "ContentType", 1, strs...)...)
 		add(setOps("SetPayload", "Payload", 1, bins...)...)
+		add(reuseOps("SetPayload", "Payload", "SetCorrelationData", "CorrelationData")...)
 		add(userPropOps()...)
 		for i, id := range []uint32{1, 268435455, 1} {
 			id := id
@@ -205,6 +235,18 @@ func alphabet(name string) []sop {
 				Call:  func(q any) { q.(*mq.Subscribe).AddFilters(f) },
 				Model: func(m KV) { m["Filters"] = appendList(m["Filters"], render(reflect.ValueOf(f))) }})
 		}
+		add(sop{Name: "AddFilters(v) with one variable rewritten by SetFilter/SetOptions between calls",
+			Call: func(q any) {
+				v := mq.NewTopicFilter("sensors/+/temperature", 1)
+				q.(*mq.Subscribe).AddFilters(v)
+				v.SetFilter("a/b")
+				v.SetOptions(2)
+				q.(*mq.Subscribe).AddFilters(v)
+				v.SetFilter("zzzzzzzz/#")
+			},
+			Model: func(m KV) {
+				m["Filters"] = appendList(appendList(m["Filters"], `filter("sensors/+/temperature",1)`), `filter("a/b",2)`)
+			}})
 		add(sop{Name: "AddFilters(two at once)",
 			Call:  func(q any) { q.(*mq.Subscribe).AddFilters(fs[1], fs[0]) },
 			Model: func(m KV) { m["Filters"] = appendList(appendList(m["Filters"], render(reflect.ValueOf(fs[1]))), render(reflect.ValueOf(fs[0]))) }})
